@@ -18,7 +18,7 @@ func init() {
 			"(R-STATELESS) isStatelessOp returns true only with builtinOperators[name] under name == an element of builtinStatelessOperations, or with c.OperatorMap[name] (non-nil) under name == an element of c.StatelessOperators, for the node's own name; every other return is (false, nil). (R-STATELESS-TABLE) builtinStatelessOperations is a subset of the operator table's keys. " +
 			"(R-FOLDOK) every write to the tree in the folding pass executes only on the err == nil edge of the operator call, or is the and/or absorption; the failing edge only returns; the optimizer function type has no error result and the optimizers contain no panic, so a failing constant cannot fail Compile. " +
 			"(R-FOLDCONST) the call executes only after a loop over all children that leaves the function at the first child whose kind is not `constant`, and its arguments are those children's values in order; the absorption is gated by a constant child whose bool value is false under isAndOpNode / true under isOrOpNode of the same node, and installs that value. " +
-			"That results are never baked in at run time is C07's R-EFFECT. NOT decided: that a folded value equals the run-time value.",
+			"That results are never baked in at run time is C07's R-EFFECT. (R-OPRESOLVE) parser and folder resolve an operator name to the same function (built-in table first). NOT decided: that a folded value equals the run-time value.",
 		Run:       runC10,
 		Witnesses: c10Witnesses,
 	})
